@@ -172,6 +172,23 @@ type c17RawSrvIn struct {
 	Headers  []c17Hdr `json:"headers"`
 	Trailers []c17Hdr `json:"trailers"`
 	Body     c17Body  `json:"body"`
+	// Rpc: the protocol of the RPC that asks for the raw response: "" / connect | grpc | grpcweb
+	Rpc string `json:"rpc,omitempty"`
+	// Extra: what the response definition holds besides the raw response (all of it must be ignored)
+	Extra *c17Extra `json:"extra,omitempty"`
+}
+
+// c17Extra: the other fields of a Unary/StreamResponseDefinition (delays excluded).
+type c17Extra struct {
+	Data     []string `json:"data"` // hex; unary: the first one is response_data (unless Error is set)
+	Error    *c17Err  `json:"error"`
+	Headers  []c17Hdr `json:"headers"`
+	Trailers []c17Hdr `json:"trailers"`
+}
+type c17Err struct {
+	Code    int32  `json:"code"`
+	Message string `json:"message"`
+	Details int    `json:"details"` // number of detail messages
 }
 type c17RawSrvOut struct {
 	Err      string   `json:"err,omitempty"`
@@ -425,18 +442,51 @@ func c17Envelope(b []byte) []byte {
 func c17RawExchange(in c17RawSrvIn, raw *conformancev1.RawHTTPResponse, name string) (status int, hdr, trl http.Header, body []byte, err error) {
 	var payload []byte
 	contentType := "application/" + in.Codec
+	unaryDef := &conformancev1.UnaryResponseDefinition{RawResponse: raw}
+	streamDef := &conformancev1.StreamResponseDefinition{RawResponse: raw}
+	if x := in.Extra; x != nil {
+		unaryDef.ResponseHeaders, unaryDef.ResponseTrailers = c17Headers(x.Headers), c17Headers(x.Trailers)
+		streamDef.ResponseHeaders, streamDef.ResponseTrailers = c17Headers(x.Headers), c17Headers(x.Trailers)
+		for _, d := range x.Data {
+			b, _ := hex.DecodeString(d)
+			streamDef.ResponseData = append(streamDef.ResponseData, b)
+		}
+		if len(streamDef.ResponseData) > 0 {
+			unaryDef.Response = &conformancev1.UnaryResponseDefinition_ResponseData{ResponseData: streamDef.ResponseData[0]}
+		}
+		if x.Error != nil {
+			e := &conformancev1.Error{Code: conformancev1.Code(x.Error.Code), Message: &x.Error.Message}
+			for i := 0; i < x.Error.Details; i++ {
+				d, _ := anypb.New(&conformancev1.Header{Name: fmt.Sprintf("detail-%d", i), Value: []string{"v"}})
+				e.Details = append(e.Details, d)
+			}
+			unaryDef.Response = &conformancev1.UnaryResponseDefinition_Error{Error: e}
+			streamDef.Error = e
+		}
+	}
 	switch in.Proc {
 	case "Unary":
-		payload = c17Marshal(in.Codec, &conformancev1.UnaryRequest{ResponseDefinition: &conformancev1.UnaryResponseDefinition{RawResponse: raw}})
+		payload = c17Marshal(in.Codec, &conformancev1.UnaryRequest{ResponseDefinition: unaryDef})
 	case "ClientStream":
 		contentType = "application/connect+" + in.Codec
-		payload = append(c17Envelope(c17Marshal(in.Codec, &conformancev1.ClientStreamRequest{ResponseDefinition: &conformancev1.UnaryResponseDefinition{RawResponse: raw}})),
+		payload = append(c17Envelope(c17Marshal(in.Codec, &conformancev1.ClientStreamRequest{ResponseDefinition: unaryDef})),
 			c17Envelope(c17Marshal(in.Codec, &conformancev1.ClientStreamRequest{RequestData: []byte("more")}))...)
 	case "ServerStream":
 		contentType = "application/connect+" + in.Codec
-		payload = c17Envelope(c17Marshal(in.Codec, &conformancev1.ServerStreamRequest{ResponseDefinition: &conformancev1.StreamResponseDefinition{RawResponse: raw}}))
+		payload = c17Envelope(c17Marshal(in.Codec, &conformancev1.ServerStreamRequest{ResponseDefinition: streamDef}))
+	case "BidiStream":
+		contentType = "application/connect+" + in.Codec
+		payload = append(c17Envelope(c17Marshal(in.Codec, &conformancev1.BidiStreamRequest{ResponseDefinition: streamDef})),
+			c17Envelope(c17Marshal(in.Codec, &conformancev1.BidiStreamRequest{RequestData: []byte("more")}))...)
 	default:
 		return 0, nil, nil, nil, fmt.Errorf("unknown procedure %q", in.Proc)
+	}
+	switch in.Rpc {
+	case "grpc", "grpcweb":
+		if in.Proc == "Unary" {
+			payload = c17Envelope(payload) // every gRPC message is enveloped
+		}
+		contentType = map[string]string{"grpc": "application/grpc+", "grpcweb": "application/grpc-web+"}[in.Rpc] + in.Codec
 	}
 	ctx, cancel := context.WithTimeout(context.Background(), 60*time.Second)
 	defer cancel()
@@ -445,7 +495,11 @@ func c17RawExchange(in c17RawSrvIn, raw *conformancev1.RawHTTPResponse, name str
 		return 0, nil, nil, nil, err
 	}
 	req.Header.Set("Content-Type", contentType)
-	req.Header.Set("Connect-Protocol-Version", "1")
+	if in.Rpc == "grpc" || in.Rpc == "grpcweb" {
+		req.Header.Set("Te", "trailers")
+	} else {
+		req.Header.Set("Connect-Protocol-Version", "1")
+	}
 	req.Header.Set("X-Test-Case-Name", name)
 	if in.Origin != "" {
 		req.Header.Set("Origin", in.Origin)
@@ -955,6 +1009,50 @@ func runC17(c *gen.Ctx) error {
 		in.Trailers = c17SameSpelling(c17RandHdrs(r, c17TrlNames, 2))
 		e.Count("kind:rawsrv-" + in.Proc)
 		jobs = append(jobs, in)
+	}
+	// ---- (g2) whatever else the response definition holds, the raw response is what is sent: every
+	//      RPC protocol x every procedure x HTTP/1.1, h2c x {nothing else, response data, an error
+	//      without / with details} x response headers {none, some} x response trailers {none, some}
+	xhdr := []c17Hdr{{N: "X-Handler-Hdr", V: []string{"from-definition"}}, {N: "x-handler-bin", V: []string{"AAEC"}}}
+	xtrl := []c17Hdr{{N: "X-Handler-Trl", V: []string{"from-definition"}}}
+	nExtra := 0
+	for _, rpc := range []string{"connect", "grpc", "grpcweb"} {
+		for _, proc := range []string{"Unary", "ClientStream", "ServerStream", "BidiStream"} {
+			for _, proto := range []string{"h1", "h2c"} {
+				if proto == "h1" && (rpc == "grpc" || proc == "BidiStream") {
+					continue // gRPC and bidirectional streams need HTTP/2
+				}
+				for kind := 0; kind < 4; kind++ {
+					for hm := 0; hm < 4; hm++ {
+						if !th && (nExtra+kind+hm)%2 == 1 && !(kind >= 2 && hm%2 == 1 && proc == "Unary") {
+							continue
+						}
+						x := &c17Extra{Data: []string{}, Headers: []c17Hdr{}, Trailers: []c17Hdr{}}
+						switch kind {
+						case 1:
+							x.Data = []string{gen.Hex([]byte("handler-data-1")), gen.Hex([]byte("handler-data-2"))}
+						case 2:
+							x.Error = &c17Err{Code: int32(r.Range(1, 16)), Message: "handler error"}
+						case 3:
+							x.Error = &c17Err{Code: int32(r.Range(1, 16)), Message: "handler error with details", Details: r.Range(1, 2)}
+						}
+						if hm&1 == 1 {
+							x.Headers = xhdr
+						}
+						if hm&2 == 2 {
+							x.Trailers = xtrl
+						}
+						in := c17RawSrvIn{Proto: proto, Proc: proc, Codec: "proto", Rpc: rpc, Extra: x,
+							Status: gen.Pick(r, []uint32{0, 201, 400, 404, 500, 503}), Body: c17RandBody(r, false),
+							Headers:  []c17Hdr{{N: gen.Pick(r, []string{"X-Raw-A", "Content-Type", "Vary"}), V: []string{gen.Pick(r, srvVals)}}},
+							Trailers: c17SameSpelling(c17RandHdrs(r, c17TrlNames, 2))}
+						e.Count("kind:rawsrv-extra-" + rpc)
+						jobs = append(jobs, in)
+					}
+				}
+				nExtra++
+			}
+		}
 	}
 	c.DoParallel("rawsrv", jobs, 8)
 	// ---- (h)-(l): histories in one process and the whole status range (c17seq.go)
